@@ -252,9 +252,9 @@ func (r *run) fetch(who string, full bool) {
 const watchdog = 30 * time.Second
 
 type info struct {
-	parkedBurst, coalesced                              bool
+	parkedBurst, coalesced                               bool
 	breaker, parks, drainReports, lateWakeups, maxInWait int
-	condPeek                                            bool
+	condPeek                                             bool
 }
 
 func stacks() string {
